@@ -67,6 +67,7 @@ class Sched:
         self.call = 0            # index of the filter() call of a history that the caller is in
         self.call_marks = [0]    # log position at which each call started
         self.escaped = []        # exceptions that escaped a scheduled background thread
+        self.keys = {}           # read_wait: UniqueKey number -> lineage of the process that owns it
         self.np_probe = None     # callable returning the current `_n_procs` (or None)
         self.none_code = None    # how a `None` popped from out_queue by the caller is reported (see c08.py)
 
@@ -392,7 +393,10 @@ class FakeQueue:
             elif me.role == "W":
                 s.yield_point()
                 self.q.append(x)
-                s.act("wPut", w=me.lineage, x=self._obs_out(x))
+                if type(x).__name__ == "UniqueKey":
+                    s.act("wKey", w=me.lineage)          # read_wait: the process writes its key
+                else:
+                    s.act("wPut", w=me.lineage, x=self._obs_out(x))
             else:
                 s.yield_point()
                 self.q.append(x)
@@ -416,7 +420,10 @@ class FakeQueue:
         if self.kind == "in" and me.role == "W":
             s.act("wGet", w=me.lineage, x=self._obs_in(x))
         elif self.kind == "out" and me.role == "M":
-            s.act("cGet", x=self._obs_out(x, popping=True))
+            if type(x).__name__ == "UniqueKey":
+                s.act("cKey", w=s.keys.get(x._n, 99))    # read_wait: the caller reads a key (and sets that process' event)
+            else:
+                s.act("cGet", x=self._obs_out(x, popping=True))
         else:
             s.act("foreignGet", who=me.name, q=self.kind)
         return x
@@ -430,7 +437,10 @@ class FakeQueue:
             raise Empty()
         x = self.q.popleft()
         if me.role == "M":
-            s.act("drainIn" if self.kind == "in" else "drainOut")
+            if self.kind == "out" and type(x).__name__ == "UniqueKey":
+                s.act("drainKey")
+            else:
+                s.act("drainIn" if self.kind == "in" else "drainOut")
         else:
             s.act("foreignGet", who=me.name, q=self.kind)
         return x
@@ -495,6 +505,15 @@ def make_fakes(sched, real_process_line, real_thread_line):
             child = _Child(sched.private_copy(self._line))
             self._alive = True
             self._started = True
+            # read_wait (what MyProcessLine.start does): an event + a UniqueKey registered in the caller's dict
+            rw = self._read_waiters
+            wait_ev = wait_key = None
+            if rw is not None:
+                import coba.pipes.multiprocessing as _cpm
+                wait_ev = FakeEvent(sched)
+                wait_key = _cpm.UniqueKey()
+                rw[wait_key] = wait_ev
+                sched.keys[wait_key._n] = w
 
             def body():
                 sched.act("wBegin", w=w)
@@ -506,16 +525,23 @@ def make_fakes(sched, real_process_line, real_thread_line):
                     # the process was killed: nothing is reported through the pipe, the exit code is the signal's
                     self._alive = False
                     self.exitcode = -9
-                    sched.act("wKilled", w=w)
+                    sched.act("wKilled", w=w)         # model action `wCrash w` (fault extension)
                     return
                 ex, tb, po = pickle.loads(pickle.dumps(child._send.value))
                 self._exception, self._traceback, self._poisoned = ex, tb, po
-                self._alive = False
-                self.exitcode = 0
+                if wait_ev is None:
+                    self._alive = False
+                    self.exitcode = 0
                 if ex is not None:
                     sched.act("wRaise", w=w)
                 elif not po:
                     sched.act("wRetire", w=w)
+                if wait_ev is not None:
+                    # read_wait (what MyProcessLine.run does after the line ended): write the key, wait for the caller
+                    child._line[-1].write([pickle.loads(pickle.dumps(wait_key))])
+                    wait_ev.wait()
+                    self._alive = False
+                    self.exitcode = 0
 
             def on_exit():
                 cb = self._callback
@@ -709,10 +735,19 @@ def _indep1(a, b):
     return k in _TABLE_NE and a.get("w") != b.get("w")
 
 
+# phase 4: the two pairs on one queue whose steps commute whenever BOTH are possible (Coba.C08.indepExtra1, theorem step_comm2):
+# a thread in a sleep set was runnable when it fell asleep (a caller blocked on an empty out-queue / a loader blocked on a
+# full in-queue is not runnable, so it is never in one) and commutation keeps it enabled
+_TABLE2 = {("wPut", "cGet"), ("loadPut", "wGet")}
+USE_INDEP2 = True
+
+
 def indep(a, b):
-    """Python copy of `Coba.C08.indep` (Model/C08.lean; soundness = theorem `step_comm`); cross-checked against the
-    Lean driver on the pairs met during an enumeration"""
-    return _indep1(a, b) or _indep1(b, a)
+    """Python copy of `Coba.C08.indep2` (= `indep` + `indepExtra1`, Model/C08.lean; soundness = theorems `step_comm`,
+    `step_comm2`); cross-checked against the Lean driver on the pairs met during an enumeration"""
+    if _indep1(a, b) or _indep1(b, a):
+        return True
+    return USE_INDEP2 and ((a["a"], b["a"]) in _TABLE2 or (b["a"], a["a"]) in _TABLE2)
 
 
 def seg_indep(s1, s2):
